@@ -156,6 +156,27 @@ def install_graph():
     bracket(ig.IntronCollector, "simplify_correction_map", "simplify_map", op=("SimplifyMap", (), 0))
     bracket(ig.IntronGraph, "add_edge", "add_edge", op=("AddEdge", (), 2))
     bracket(ig.IntronGraph, "collapse_vertex", "collapse", op=("Collapse", (), 2))
+    # the local decisions: every call of collapse_vertex_set is logged with the counts it reads and what it returns (between the mutator steps)
+    orig_cvs = ig.IntronGraph.collapse_vertex_set
+    def collapse_vertex_set(self, vertex_set):
+        rec = self.intron_collector._c04
+        fr = sys._getframe(1); caller = fr.f_code.co_name; loc = fr.f_locals
+        vs = sorted(vertex_set); counts = [int(dict.get(self.intron_collector.clustered_introns, v, 0)) for v in vs]
+        res = orig_cvs(self, vertex_set)
+        if rec.top() is None:
+            items = [[_iv(k), _iv(v)] for k, v in res.items()]
+            if caller == "remove_isolates": rec.ops.append(["Iso", _ivs(vs), counts, items])
+            elif caller == "clean_tips_and_bulges" and len(vs) > 1:
+                rec.ops.append(["Cvs", "inc_introns" not in loc, _iv(loc["current_intron"]), _ivs(vs), counts, items])
+            elif len(vs) > 1: rec.ops.append(["Raw", "cvs-from-" + caller])
+        return res
+    ig.IntronGraph.collapse_vertex_set = collapse_vertex_set
+    orig_simplify = ig.IntronGraph.simplify
+    def simplify(self):
+        r = orig_simplify(self)
+        object.__setattr__(self, "_c04_counts", [[_iv(k), int(v)] for k, v in self.intron_collector.clustered_introns.items()])
+        return r
+    ig.IntronGraph.simplify = simplify
     for nm in ("construct", "clean_tips_and_bulges", "simplify", "attach_terminal_positions"):
         # phase boundaries: snapshot after the phase (the phase itself is not a mutator; mutations inside it that are not inside a mutator are raw steps)
         orig = getattr(ig.IntronGraph, nm)
@@ -187,17 +208,27 @@ def install_graph():
     g_init = ig.IntronGraph.__init__
     def graph_init(self, params, gene_info, read_assignments):
         object.__setattr__(self, "_c04_pending", Rec())
-        reads = []
+        reads = []; xreads = []
         for a in read_assignments:
             reads.append([bool(a.multimapper), _ivs(a.corrected_introns or [])])
+            try:
+                pi = a.polya_info
+                xreads.append([bool(a.multimapper), _ivs(a.corrected_introns or []), int(a.corrected_exons[0][0]), int(a.corrected_exons[-1][1]),
+                               bool(a.strand == '+' and (pi.external_polya_pos != -1 or pi.internal_polya_pos != -1)),
+                               bool(a.strand == '-' and (pi.external_polyt_pos != -1 or pi.internal_polyt_pos != -1))])
+            except Exception as e: xreads.append(["error", repr(e)])
         object.__setattr__(self, "_c04_reads", reads)
         g_init(self, params, gene_info, read_assignments)
         c = self.intron_collector
         # after clustering (before construct) a snapshot is taken by the `construct` hook only afterwards; that is enough: add_edge changes E only
         terminal = sorted([_iv(u), [int(v[0]), int(v[1])]] for u, vs in self.outgoing_edges.items() for v in vs if v[0] < 0) + \
                    sorted([_iv(u), [int(v[0]), int(v[1])]] for u, vs in self.incoming_edges.items() for v in vs if v[0] < 0)
-        object.__setattr__(self, "_c04_graph", dict(reads=reads, ops=c._c04.ops, raw_inside=len(c._c04.raw), terminal=terminal,
-                                                    known=sorted(_iv(i) for i in c.known_introns), delta=int(c.delta)))
+        out_e = sorted([_iv(u), _iv(v)] for u, vs in self.outgoing_edges.items() if u[0] >= 0 for v in vs if v[0] >= 0)
+        inc_e = sorted([_iv(v), _iv(u)] for v, us in self.incoming_edges.items() if v[0] >= 0 for u in us if u[0] >= 0)
+        object.__setattr__(self, "_c04_graph", dict(reads=reads, xreads=xreads, out_edges=out_e, inc_edges=inc_e, ops=c._c04.ops, raw_inside=len(c._c04.raw), terminal=terminal,
+                                                    known=sorted(_iv(i) for i in c.known_introns), delta=int(c.delta), min_count=int(params.min_novel_intron_count),
+                                                    counts_after_simplify=getattr(self, "_c04_counts", None), counts_end=[[_iv(k), int(v)] for k, v in c.clustered_introns.items()],
+                                                    gparams=dict(dist=int(params.graph_clustering_distance), ratio=repr(float(params.graph_clustering_ratio)), iso=int(params.min_novel_isolated_intron_abs))))
         # mutations after construction of the graph (e.g. defaultdict look-ups in the filters) go to a separate list
         late = Rec(); c._c04.ops = late.ops; c._c04.raw = late.raw; c._c04.stack = late.stack
         self._c04_pending.ops = late.ops
@@ -350,7 +381,10 @@ def install_constructor():
                        unassigned=[rid for rid, c in self.read_assignment_counts.items() if c == 0],
                        counter={t: int(v) for t, v in self.internal_counter.items()},
                        final_vertices=sorted(_iv(v) for v in g.intron_collector.clustered_introns.keys()),
-                       dup_oracle=duplicate_oracle(self))
+                       dup_oracle=duplicate_oracle(self),
+                       paths=[[[[int(v[0]), int(v[1])] for v in p], int(n)] for p, n in self.path_storage.paths.items()],
+                       fl_paths=[[[int(v[0]), int(v[1])] for v in p] for p in self.path_storage.fl_paths],
+                       pparams=dict(delta=int(self.params.delta), apa_delta=int(self.params.apa_delta), requires_polya=bool(self.params.requires_polya_for_construction)))
             return r
         except BaseException as e:
             rec["raised"] = type(e).__name__
